@@ -69,7 +69,7 @@ def file_cases(tier, seed):
         for steps in combos:
             add(kind="history", size=rng.choice([0, 4, 70000]), mt_s=1000000000, mt_ns=rng.choice([0, 123456789]),
                 steps=[list(s) for s in steps])
-    for t in ("dir", "devnull", "devzero"):
+    for t in ("dir", "devnull", "devzero", "socket", "symlink_handle", "fifo"):
         add(kind="nonregular", target=t)
     # clones of one entity streamed concurrently on several threads
     for i in range(3 if not T else 10):
